@@ -107,7 +107,25 @@ func c18oracle(cfg gatherCfg) map[string]bool {
 		if mip.To4() != nil {
 			mfam = "4"
 		}
-		if (!mip.IsLoopback() || cfg.Loopback) && fam("udp", mfam) {
+		switch {
+		case mip.IsUnspecified():
+			// a mux on the wildcard address lends its socket for every address of its family on every interface that is
+			// up (the mux enumerates them itself: the agent's filters do not apply, its loopback setting and network types do)
+			for _, ic := range cfg.Ifaces {
+				if !ic.Up {
+					continue
+				}
+				for _, a := range ic.Addrs {
+					ip := net.ParseIP(a)
+					if (ip.To4() != nil) != (mfam == "4") || (ip.IsLoopback() && !cfg.Loopback) {
+						continue
+					}
+					if fam("udp", mfam) {
+						want["udp "+ip.String()] = true
+					}
+				}
+			}
+		case (!mip.IsLoopback() || cfg.Loopback) && fam("udp", mfam):
 			want["udp "+mip.String()] = true // borrowed from the mux: filters and port range do not apply, the network type does
 		}
 	}
@@ -291,7 +309,20 @@ func c18run(cfg gatherCfg) c18verdict {
 	sort.Strings(extra)
 	if cfg.MDNS {
 		// names hide the addresses: compare counts per transport
-		if n := len(pubsOfType(pubs, CandidateTypeHost)); n != len(want) {
+		wantN := len(want)
+		if mh, _, err := net.SplitHostPort(cfg.UDPMux); err == nil && net.ParseIP(mh).IsUnspecified() {
+			// one wildcard socket, one name, one port: the addresses it stands for collapse into a single candidate
+			udps := 0
+			for k := range want {
+				if strings.HasPrefix(k, "udp ") {
+					udps++
+				}
+			}
+			if udps > 1 {
+				wantN -= udps - 1
+			}
+		}
+		if n := len(pubsOfType(pubs, CandidateTypeHost)); n != wantN {
 			finding := ""
 			if len(cfg.NetTypes) == 0 && n < len(want) {
 				finding = "S9"
@@ -393,7 +424,7 @@ func c18configs(quick bool) []gatherCfg {
 		busy     bool
 	}
 	ranges := []pr{{0, 0, false}, {5000, 5000, false}, {5000, 5002, false}, {5000, 5001, true}}
-	muxes := [][3]string{{"", "", ""}, {"10.0.0.1:7000", "", ""}, {"", "0.0.0.0:7001", ""}, {"", "10.0.0.1:7001", ""}, {"", "", "10.0.0.1:7002"}}
+	muxes := [][3]string{{"", "", ""}, {"10.0.0.1:7000", "", ""}, {"0.0.0.0:7000", "", ""}, {"", "0.0.0.0:7001", ""}, {"", "10.0.0.1:7001", ""}, {"", "", "10.0.0.1:7002"}}
 	var out []gatherCfg
 	for _, ifs := range ifaceSets {
 		for _, nt := range netTypes {
